@@ -553,7 +553,9 @@ int cli::run(size_t argc, const char** argv)
         {
             std::filesystem::path path(*rit);
             path = path.lexically_normal();
-            rvutils::pbo::pbofile pbo(path);
+            // pbofile(path) creates the file if it does not exist, reading must not do that
+            rvutils::pbo::pbofile pbo;
+            pbo.open(path);
             if (!pbo.good())
             {
                 std::cout << "Failed to parse PBO '" << path << "'.";
